@@ -51,6 +51,7 @@ func genC02(rng *rand.Rand, tier string) *core.Plan {
 	for i := 1 + rng.Intn(6); i > 0; i-- {
 		p.Ops = append(p.Ops, core.Op{K: []string{"compact", "tick", "tick", "jump", "rollup"}[rng.Intn(5)], A: []int64{1, 20, 2000, 4000000}[rng.Intn(4)]})
 	}
+	p.Cfg["maporder"] = rng.Intn(2) // tape-chosen iteration order of Go maps in the code under test
 	return p
 }
 
